@@ -17,6 +17,7 @@ def _mk(base):
         _config_file = 'config.yaml'
         _platform = 'virtual'
         _mock_data_v = None
+        _options_v = None
 
         def runTest(self):  # pragma: no cover
             pass
@@ -32,6 +33,11 @@ def _mk(base):
 
         def get_platform(self):
             return self._platform
+
+        def get_options(self):
+            o = super().get_options()
+            o.update(self._options_v or {})
+            return o
 
         def _get_mock_data(self):
             return self._mock_data_v if self._mock_data_v is not None else dict()
@@ -51,7 +57,7 @@ _HG = _mk(MpfFakeGameTestCase)
 
 
 def boot(machine, config='config.yaml', platform='virtual', fake_game=False, mock_data=None, patches=None,
-         machine_dir=None):
+         machine_dir=None, options=None):
     """Boot a machine from /verif/machines/<machine> (or an absolute machine_dir). Returns the harness."""
     cls = _HG if fake_game else _H
     h = cls()
@@ -59,6 +65,7 @@ def boot(machine, config='config.yaml', platform='virtual', fake_game=False, moc
     h._config_file = config
     h._platform = platform
     h._mock_data_v = mock_data
+    h._options_v = options
     if patches:
         for k, v in patches.items():
             h.machine_config_patches[k] = v
